@@ -80,6 +80,7 @@ fn lossy_action() -> impl Strategy<Value = Action> {
         4 => Just(Action::Drop),
         2 => (any::<u16>(), 0u8..8).prop_map(|(pos, bit)| Action::Flip { pos, bit }),
         1 => (0u16..1000).prop_map(|keep| Action::Truncate { keep }),
+        1 => (any::<u32>(), any::<bool>()).prop_map(|(seed, keep_first)| Action::Garbage { seed, keep_first }),
         1 => (50_000u32..3_000_000).prop_map(|us| Action::Delay { us }),
     ]
 }
@@ -89,6 +90,7 @@ fn benign_action() -> impl Strategy<Value = Action> {
         2 => (0u32..40_000).prop_map(|us| Action::Delay { us }),
         2 => (1u8..3, 0u32..30_000).prop_map(|(n, gap_us)| Action::Dup { n, gap_us }),
         1 => (0u32..2_000_000).prop_map(|us| Action::Replay { us }),
+        1 => Just(Action::Reflect),
     ]
 }
 
